@@ -470,7 +470,23 @@ def method(eng, obj, name, args, kwargs, st):
                 raise OutOfSubset('dict.%s' % name)
             return
         if isinstance(o, SymListV):
-            raise OutOfSubset('method %s on symbolic list' % name)
+            if name == 'append':
+                eng.note_mutation(obj, st)
+                x = args[0]
+                st.heap[obj.oid] = SymListV(add(o.n, 1), lambda i, o=o, x=x: ite(eq(i, o.n), x, o.at(i)), o.elem, o.origin)
+                yield None, st
+            elif name == 'insert':
+                eng.note_mutation(obj, st)
+                if concrete(args[0]) != 0:
+                    raise OutOfSubset('list.insert at a position other than 0 on a symbolic list')
+                x = args[1]
+                st.heap[obj.oid] = SymListV(add(o.n, 1), lambda i, o=o, x=x: ite(eq(i, 0), x, o.at(sub(i, 1))), o.elem, o.origin)
+                yield None, st
+            elif name == 'copy':
+                yield new_ref(st, SymListV(o.n, o.at, o.elem)), st
+            else:
+                raise OutOfSubset('method %s on symbolic list' % name)
+            return
     raise OutOfSubset('method %s on %r' % (name, obj))
 
 
@@ -548,6 +564,15 @@ def spec_forall(eng, args, kwargs, st, exists=False):
 def spec_forall2(eng, args, kwargs, st):
     """forall2(lo, hi, lambda i, j: body)  -- both range over [lo, hi)"""
     lo, hi, lam = args
+    loc, hic = concrete(lo), concrete(hi)
+    if loc is not None and hic is not None and hic - loc <= 48:
+        parts = []
+        for a in range(int(loc), int(hic)):
+            for b in range(int(loc), int(hic)):
+                for v, _ in call_lambda(eng, lam, [a, b], st):
+                    parts.append(to_bool(v))
+        yield and_(*parts), st
+        return
     i, j = _bound_var('i'), _bound_var('j')
     body = None
     for v, _ in call_lambda(eng, lam, [i, j], st):
@@ -639,7 +664,10 @@ def spec_val(eng, args, kwargs, st):
 
 
 def spec_length(eng, args, kwargs, st):
-    yield length(eng, args[0], st), st
+    if args[0] is None:
+        yield 0, st
+    else:
+        yield length(eng, args[0], st), st
 
 
 def spec_array_of(eng, args, kwargs, st):
